@@ -99,3 +99,34 @@ func init() {
 		}
 	}
 }
+
+func init() {
+	debugHooks["main"] = func(p *Prog, what string) {
+		fn := p.Func(strings.TrimPrefix(what, "main:"))
+		if fn == nil {
+			fmt.Println("no such function")
+			return
+		}
+		m := NewInterpModel(p, what)
+		m.MainMode = true
+		var params []AV
+		for _, prm := range fn.Params {
+			params = append(params, Sym(prm.Name()))
+		}
+		m.Explore(fn, params, nil)
+		ws, ok := m.G.Words(500)
+		fmt.Println("ok:", ok, "words:", len(ws), "undecided:", m.Undecided)
+		if !ok {
+			printGraph(m.G)
+			return
+		}
+		seen := map[string]bool{}
+		for _, w := range ws {
+			s := wordString(w)
+			if !seen[s] {
+				seen[s] = true
+				fmt.Println("  ", s)
+			}
+		}
+	}
+}
